@@ -195,3 +195,74 @@ func sigHasError(t types.Type) bool {
 	s, ok := t.Underlying().(*types.Signature)
 	return ok && errorResultIndex(s) >= 0
 }
+
+// ruleOverwrite: an error produced inside a loop must be examined (tested, returned, recorded)
+// inside that loop; if its only route out is a phi that the next iteration overwrites, an earlier
+// failure is lost when a later call succeeds.
+func ruleOverwrite(c *Ctx, rule string, fns []*ssa.Function) {
+	p := c.P
+	for _, fn := range fns {
+		loops := loopsOf(fn)
+		if len(loops) == 0 {
+			continue
+		}
+		name := FnName(fn)
+		n, bad := 0, 0
+		for _, call := range callsIn(fn) {
+			cv, ok := call.(*ssa.Call)
+			if !ok {
+				continue
+			}
+			sig := cv.Call.Signature()
+			ei := errorResultIndex(sig)
+			if ei < 0 {
+				continue
+			}
+			l := innermostLoop(loops, cv.Block())
+			if l == nil {
+				continue
+			}
+			var ev ssa.Value = cv
+			if sig.Results().Len() > 1 {
+				ev = nil
+				for _, r := range *cv.Referrers() {
+					if ex, ok := r.(*ssa.Extract); ok && ex.Index == ei {
+						ev = ex
+					}
+				}
+				if ev == nil {
+					continue // dropped: reported by DROP
+				}
+			}
+			n++
+			// a direct (non-phi) use examines exactly this iteration's error; uses that are only
+			// reached through a phi see whatever the last iteration produced
+			examinedInLoop := false
+			for _, r := range *ev.Referrers() {
+				switch r.(type) {
+				case *ssa.DebugRef, *ssa.Phi:
+				default:
+					examinedInLoop = true
+				}
+			}
+			_ = l
+			if !hasRealReferrer(ev) {
+				continue
+			}
+			if !examinedInLoop {
+				bad++
+				callee := "call"
+				if f, _ := calleeOf(cv.Common()); f != nil {
+					callee = shortObj(f)
+				} else {
+					callee = "call through " + cv.Call.Value.Name()
+				}
+				c.Bad(rule, name+": "+callee, p.Pos(cv.Pos()), "the error of this call, made inside a loop, is only carried to the next iteration / the code after the loop: a later iteration overwrites it, so a failure followed by a success is reported as success")
+			}
+		}
+		if n > 0 && bad == 0 {
+			c.Analysed(name)
+			c.OK(rule, name, p.Pos(fn.Pos()), fmt.Sprintf("%d error-returning call(s) inside loops, each examined before the next iteration", n))
+		}
+	}
+}
